@@ -452,7 +452,7 @@ class Model:
             self.probe_calls += 1
             i = args[0] if args else None
             self.log.append((name, str(i)))
-            if name == 'boom' or self.probe_faults.get(self.probe_calls) in ('raise', 'stop'):
+            if name == 'boom' or self.probe_faults.get(self.probe_calls) in ('raise', 'stop', 'value'):
                 raise MErr('host', 'probe %s' % (i,))
             return args[1] if len(args) > 1 else i
         if name == 'call':
